@@ -1215,7 +1215,10 @@ def _register_required_structure_hooks(
         lsp_types.NotebookDocumentFilterNotebookType,
         lsp_types.NotebookDocumentFilterScheme,
         lsp_types.NotebookDocumentFilterPattern,
+        None,
     ]:
+        if object_ is None:
+            return None
         if isinstance(object_, str):
             return str(object_)
         elif "notebookType" in object_:
@@ -1257,6 +1260,10 @@ def _register_required_structure_hooks(
             _notebook_filter_hook,
         ),
         (NotebookSelectorItem, _notebook_filter_hook),
+        # NotebookDocumentFilterWithCells.notebook (optional)
+        (Optional[NotebookSelectorItem], _notebook_filter_hook),
+        # DidChangeConfigurationRegistrationOptions.section
+        (Optional[Union[str, Sequence[str]]], lambda object_, _type: object_),
         (
             Union[lsp_types.LSPObject, Sequence["LSPAny"], str, int, float, bool, None],
             _lsp_object_hook,
